@@ -23,10 +23,10 @@ def gen_cases(rng, tier):
         form = rng.choice(['pure', 'pure', 'inplace', 'reflected'])
         if other == 'bitarray' and form == 'reflected': form = 'pure'   # bitarray.__and__(Bits) raises TypeError itself: not bitstring's behaviour
         yield {'op': rng.choice(OPS), 'cls': rng.choice(CLASSES), 'a': a, 'b': a if other == 'self' else b, 'other': other,
-               'form': form, 'pos': rng.choice([None, 0, l // 2, l]), 'lsb0': rng.random() < 0.3}
-        yield {'op': 'invert', 'cls': rng.choice(CLASSES), 'a': a, 'lsb0': rng.random() < 0.3}
+               'form': form, 'pos': rng.choice([None, 0, l // 2, l]), 'lsb0': rng.random() < 0.3, 'route': rng.choice(ROUTES) if rng.random() < 0.5 else 'bin'}
+        yield {'op': 'invert', 'cls': rng.choice(CLASSES), 'a': a, 'lsb0': rng.random() < 0.3, 'route': rng.choice(ROUTES) if rng.random() < 0.5 else 'bin'}
         n = rng.choice([-3, -1, 0, 1, 2, 7, 8, l - 1, l, l + 1, 2 * l + 3, rng.randrange(0, l + 2), 1 << 70])
-        yield {'op': rng.choice(['lshift', 'rshift']), 'cls': rng.choice(CLASSES), 'a': a, 'n': n, 'form': rng.choice(['pure', 'inplace']),
+        yield {'op': rng.choice(['lshift', 'rshift']), 'cls': rng.choice(CLASSES), 'a': a, 'n': n, 'form': rng.choice(['pure', 'inplace']), 'route': rng.choice(ROUTES) if rng.random() < 0.4 else 'bin',
                'pos': rng.choice([None, 0, l // 2, l]), 'lsb0': rng.random() < 0.4}
     for l in range(0, 4):
         for v in range(1 << l):
@@ -50,7 +50,7 @@ def under_mode(c, f):
 
 def run_impl(c):
     op = c['op']
-    s = build(c['cls'], c['a'], 'bin', c.get('pos'))
+    s = build(c['cls'], c['a'], c.get('route', 'bin'), c.get('pos'))        # the left operand through any construction route (files included)
     if op in OPS:
         other = s if c['other'] == 'self' else (build(c['other'], c['b'], 'bin') if c['other'] in CLASSES else promotable(c['b'], c['other']))
         def f():
